@@ -112,6 +112,22 @@ func replayWith(h *harness, body, comments []string) (bool, string) {
 				j, _ := strconv.ParseUint(f[2], 10, 32)
 				h.priorityCase(common.BytesToHash(s), uint32(j))
 			}
+		case "server":
+			// server seedhex key,key,key, who kind
+			if len(f) == 5 {
+				seed, e1 := hex.DecodeString(f[1])
+				var keys [][]byte
+				for _, ks := range strings.Split(strings.TrimRight(f[2], ","), ",") {
+					kb, e := hex.DecodeString(ks)
+					if e == nil && len(kb) == 32 {
+						keys = append(keys, kb)
+					}
+				}
+				who, _ := strconv.Atoi(f[3])
+				if e1 == nil && len(keys) > 0 {
+					h.serverCase(seed, keys, who, f[4], true)
+				}
+			}
 		case "cred":
 			if b, p, ok := parseCred(f); ok {
 				h.credCase(b, p, true)
